@@ -6,18 +6,19 @@ From Coq Require Import Lia.
 (* For every source text s and every pp tree of s that holds only text runs, comments, string
    literals and escaped identifiers (each one leaf: the class D6 -- a string literal or escaped
    identifier carrying trailing white space -- is excluded) whose leaves tile s: the event loop,
-   with strip_comments off and for any flags, depths, define table and parse/file tables,
+   with strip_comments off, at resolve depth 0 (the text of a file or of the caller's string, not a
+   macro expansion) and for any other flags, include depth, define table and parse/file tables,
    returns exactly s, leaves the define table alone, and maps every output byte i to (path, i). *)
-Theorem C06_identity : forall c rec s p ignore rd idp kroot its d,
+Theorem C06_identity : forall c rec s p ignore idp kroot its d,
   inert_kind kroot ->
   Forall (fun kl => item_kind_ok (fst kl) = true) its ->
   tiles_from 0 (map snd its) (blen s) ->
-  exists x', run_events (step c rec s p ignore false rd idp) (events (flat_tree kroot its)) (st0 d) = ROk x' /\
+  exists x', run_events (step c rec s p ignore false 0 idp) (events (flat_tree kroot its)) (st0 d) = ROk x' /\
              s_defs x' = d /\ out_text x' = s /\
              forall i, i < blen s -> pt_origin (run_ops true (out_ops x')) i = OSome p i.
 Proof.
-  intros c rec s p ignore rd idp kroot its d Hr Hk Ht.
-  destruct (flat_identity c rec s p ignore rd idp kroot its d Hr Hk) as (x' & R & D & T & O).
+  intros c rec s p ignore idp kroot its d Hr Hk Ht.
+  destruct (flat_identity c rec s p ignore idp kroot its d Hr Hk) as (x' & R & D & T & O).
   exists x'. split; [exact R|]. split; [exact D|]. split.
   - rewrite T. rewrite <- (map_map snd (lstr s)). apply tiles_text. exact Ht.
   - intros i Hi. rewrite O.
